@@ -21,7 +21,7 @@ func sessionFrame(t *rapid.T, l string) ([]byte, string) {
 		case 0:
 			return poolCert("p256c").Marshal() // a certificate over a key the agent does not hold
 		case 1:
-			return variantCert(held, rapid.SampledFrom([]int{10, 11, 12}).Draw(t, l+"variant")).Marshal()
+			return variantCert(held, rapid.SampledFrom([]int{10, 11, 12, 16, 17}).Draw(t, l+"variant")).Marshal()
 		}
 		return poolCert(held).Marshal()
 	}
@@ -61,7 +61,7 @@ func sessionFrame(t *rapid.T, l string) ([]byte, string) {
 
 func TestC12Sessions(t *testing.T) {
 	vh.Run(t, vh.Spec[StreamCase]{Property: "C12", Name: "TestC12Sessions", Journal: true,
-		Rule: "3..14 complete, well-formed frames as one client sends them over a session, drawn from a SMALL alphabet so that requests meet the state earlier ones left behind: add-hardware-certificate (both encodings) of the certificate over the key the underlying agent holds / of an expired, host or free-text variant of it / of a certificate over another key; lock and unlock with one of three passphrases; list, sign (key or certificate), remove (key or certificate), remove-all, an extension request, unknown codes, list-slots - served by the real NewServer(remote=true) over shim agent + proxy + keyring; each case is journaled first, so a stream that kills the process is reported with its frames. Oracle: TestC12StreamReal's (no crash, one response per frame, in order, nothing after the end, clean end => nil). Non-trivial: a certificate is registered twice, or a frame follows a lock.",
+		Rule: "3..14 complete, well-formed frames as one client sends them over a session, drawn from a SMALL alphabet so that requests meet the state earlier ones left behind: add-hardware-certificate (both encodings) of the certificate over the key the underlying agent holds / of an expired, not-yet-valid, host or free-text variant of it / of a certificate over another key; lock and unlock with one of three passphrases; list, sign (key or certificate), remove (key or certificate), remove-all, an extension request, unknown codes, list-slots - served by the real NewServer(remote=true) over shim agent + proxy + keyring; each case is journaled first, so a stream that kills the process is reported with its frames. Oracle: TestC12StreamReal's (no crash, one response per frame, in order, nothing after the end, clean end => nil). Non-trivial: a certificate is registered twice, or a frame follows a lock.",
 		Gen: func(t *rapid.T) StreamCase {
 			c := StreamCase{Real: true, Tail: "clean"}
 			n := rapid.IntRange(3, 14).Draw(t, "nframes")
